@@ -91,6 +91,7 @@ Definition carries_unsupported (pv : Z) (e : envelope) (r : request) : bool :=
      | Execute _ _ m => qmsg_unsupported pv m
      | Prepare _ ks => is_some ks && negb (pv_uses_keyspace_flag pv)
      | Batch _ _ _ serial ts ks => (is_some ks && negb (pv_uses_keyspace_flag pv))
+                                   || ((pv <? 3) && (is_some (truthy_z serial) || is_some ts))
      | _ => false
      end.
 
